@@ -437,9 +437,7 @@ strict_cast!(strict_i64_i32_len3_bitmap, Int64Type, Int32Type, 3, true);
 safe_cast!(safe_i64_i32_len3_nonulls, Int64Type, Int32Type, 3, false);
 // @unit name=strict_i64_i32_len3_nonulls props=C13 kind=bounded bound=len=3_concrete_values_symbolic_no_bitmap fns=try_numeric_cast,num_cast tier=thorough mem=6 timeout=900
 strict_cast!(strict_i64_i32_len3_nonulls, Int64Type, Int32Type, 3, false);
-// NOT CONFIRMED under load (never seen to finish on the shared machine, load 40-75): keep tier=thorough until re-measured
 // @unit name=safe_i32_u8_len3_bitmap props=C13 kind=bounded bound=len=3_concrete_values_and_validity_symbolic fns=numeric_cast,num_cast tier=thorough mem=6 timeout=900
 safe_cast!(safe_i32_u8_len3_bitmap, Int32Type, UInt8Type, 3, true);
-// NOT CONFIRMED under load (never seen to finish on the shared machine, load 40-75): keep tier=thorough until re-measured
 // @unit name=strict_i32_u8_len3_bitmap props=C13 kind=bounded bound=len=3_concrete_values_and_validity_symbolic fns=try_numeric_cast,num_cast tier=thorough mem=6 timeout=900
 strict_cast!(strict_i32_u8_len3_bitmap, Int32Type, UInt8Type, 3, true);
